@@ -1,76 +1,294 @@
 //! C19: saving reports sink failures and ignores sink chunking (every failure offset, every chunking, Interrupted).
-use crate::c03::{spec_from_json, spec_json};
+//!
+//! Family of sinks that fail. "The sink fails at any point" fixes neither how much of the crossing write the sink takes
+//! nor what the sink does with calls made after the failure, so both are dimensions of the family:
+//!   limit n        every byte offset of the complete output
+//!   kind           hard error | zero-length write
+//!   granularity    split: the write that crosses n is accepted up to n, the next call fails
+//!                  whole: a write that does not fit below n is rejected as a whole (all-or-nothing sink)
+//!   persistence    forever: every later call fails too
+//!                  once: exactly one call fails, every later call is accepted (one-shot error; the most permissive sink:
+//!                        any non-empty write made after the failure is delivered)
+//!                  while-too-big (whole only): fixed capacity n, each call judged alone: rejected iff it does not fit
+//! The oracle is the property statement itself: no panic, save returns Err, delivered bytes are a prefix of the output
+//! of the healthy save, and a later save of the same document value loads to the same content.
+//!
+//! Family of documents: gen::docs, plus a family in which dictionary KEYS range over the name alphabet (gen::docs only
+//! uses ASCII keys although keys are names, i.e. arbitrary byte strings) in every place a dictionary can occur.
+use crate::c03::{obj_from_json, obj_json, spec_from_json};
 use crate::common::*;
 use crate::gen::*;
 use crate::sinks::{Mode, Sink};
-use lopdf::{Document, IncrementalDocument};
+use lopdf::{Document, IncrementalDocument, Object, Stream};
 use serde_json::{json, Value};
+use std::cell::RefCell;
+use std::io::Write;
+use std::sync::atomic::{AtomicUsize, Ordering};
+use std::sync::Mutex;
 
-fn save_plain(spec: &DocSpec, sink: &mut Sink) -> (Result<Result<(), std::io::Error>, String>, Document) {
-    let mut d = build(spec);
-    let r = guarded(std::panic::AssertUnwindSafe(|| d.save_to(sink)));
-    (r, d)
+// ---------------------------------------------------------------------------------------------------------------------
+// documents
+
+/// a document of the family: a gen::DocSpec plus trailer entries (gen::build cannot express arbitrary trailer keys)
+#[derive(Clone)]
+pub struct Case {
+    pub spec: DocSpec,
+    pub trailer: Vec<(Vec<u8>, Object)>,
 }
 
-fn make_inc(spec: &DocSpec) -> IncrementalDocument {
-    let base_spec = DocSpec { objects: vec![((1, 0), name(b"Base")), ((2, 0), lit(b"old"))], xref_stream: spec.xref_stream, version: "1.5".into(), extra_trailer: false, max_id_slack: 0 };
-    let mut base = vec![];
-    build(&base_spec).save_to(&mut base).unwrap();
-    let prev = Document::load_mem(&base).unwrap();
-    let mut inc = IncrementalDocument::create_from(base, prev);
-    for (id, o) in &spec.objects {
-        inc.new_document.objects.insert((id.0 + 10, id.1), o.clone());
-        inc.new_document.max_id = inc.new_document.max_id.max(id.0 + 10);
+fn build_case(c: &Case) -> Document {
+    let mut d = build(&c.spec);
+    for (k, v) in &c.trailer { d.trailer.set(k.clone(), v.clone()); }
+    d
+}
+
+/// key alphabet: every name of the leaf alphabet, plus the byte classes of names that are text in some encoding or in none
+pub fn key_alphabet() -> Vec<Vec<u8>> {
+    let mut keys: Vec<Vec<u8>> = leaves().into_iter().filter_map(|o| match o { Object::Name(n) => Some(n), _ => None }).collect();
+    keys.push(b"Caf\xe9".to_vec());             // Latin-1 (PDFDocEncoding) text, not UTF-8
+    keys.push("\u{e9}t\u{e9}".as_bytes().to_vec()); // UTF-8 multi-byte text
+    keys.push(b"\x80".to_vec());                // lone continuation byte
+    keys.push(b"K\xc3".to_vec());               // truncated multi-byte sequence
+    keys
+}
+
+const POSITIONS: [&str; 5] = ["object dictionary", "dictionary nested in a dictionary", "dictionary inside an array", "stream dictionary", "trailer"];
+
+fn key_values(key: &[u8]) -> Vec<Object> {
+    vec![
+        Object::Integer(-42),
+        lit(b"plain text"),
+        Object::Name(key.to_vec()),
+        Object::Array(vec![Object::Integer(1), lit(b"(")]),
+        Object::Dictionary(dict(vec![(key, Object::Null)])),
+        Object::Reference((1, 0)),
+    ]
+}
+
+fn key_doc(key: &[u8], position: usize, value: Object, xref_stream: bool) -> Case {
+    let entry = dict(vec![(key, value.clone())]);
+    let mut trailer = vec![];
+    let first = match position {
+        0 => Object::Dictionary(dict(vec![(key, value), (b"Z", Object::Integer(1))])),
+        1 => Object::Dictionary(dict(vec![(b"Outer", Object::Dictionary(entry))])),
+        2 => Object::Array(vec![Object::Integer(7), Object::Dictionary(entry)]),
+        3 => Object::Stream(Stream::new(entry, b"stream body".to_vec())),
+        _ => { trailer.push((key.to_vec(), value)); Object::Dictionary(dict(vec![(b"Type", name(b"Catalog"))])) }
+    };
+    Case { spec: DocSpec { objects: vec![((1, 0), first), ((2, 0), lit(b"after"))], xref_stream, version: "1.5".into(), extra_trailer: false, max_id_slack: 0 }, trailer }
+}
+
+/// key x position x value kind x xref format; quick takes one value kind per (key, position) so that every value kind
+/// meets every key and every position (Latin square), thorough takes the full product
+pub fn key_docs(thorough: bool) -> Vec<Case> {
+    let mut out = vec![];
+    for xs in [false, true] {
+        for (ki, key) in key_alphabet().iter().enumerate() {
+            for p in 0..POSITIONS.len() {
+                let vals = key_values(key);
+                for (vi, v) in vals.iter().enumerate() {
+                    if thorough || vi == (ki + p) % vals.len() { out.push(key_doc(key, p, v.clone(), xs)); }
+                }
+            }
+        }
     }
-    inc
+    out
 }
 
-fn run(spec: &DocSpec, incremental: bool, mode: Mode) -> (Result<Result<(), std::io::Error>, String>, Sink, Option<Document>) {
-    let mut sink = Sink::new(mode);
-    if incremental {
-        let mut inc = make_inc(spec);
-        let r = guarded(std::panic::AssertUnwindSafe(|| inc.save_to(&mut sink)));
-        (r, sink, None)
-    } else {
-        let (r, d) = save_plain(spec, &mut sink);
-        (r, sink, Some(d))
+fn holds_stream(s: &DocSpec) -> bool { s.objects.iter().any(|(_, o)| matches!(o, Object::Stream(_))) }
+
+fn case_json(c: &Case) -> Value {
+    let s = &c.spec;
+    json!({"xref_stream": s.xref_stream, "version": s.version, "slack": s.max_id_slack, "extra_trailer": s.extra_trailer,
+           "objects": s.objects.iter().map(|(id, o)| json!({"id": id.0, "gen": id.1, "obj": obj_json(o)})).collect::<Vec<_>>()})
+}
+
+// ---------------------------------------------------------------------------------------------------------------------
+// panics, usable from several threads (common::guarded swaps the process-wide hook on every call)
+
+thread_local! { static PANIC_AT: RefCell<String> = RefCell::new(String::new()); }
+
+fn with_hook<T>(f: impl FnOnce() -> T) -> T {
+    let prev = std::panic::take_hook();
+    std::panic::set_hook(Box::new(|info| {
+        let at = info.location().map(|l| format!("{}:{}", l.file(), l.line())).unwrap_or_default();
+        PANIC_AT.with(|p| *p.borrow_mut() = at);
+    }));
+    let r = f();
+    std::panic::set_hook(prev);
+    r
+}
+
+fn caught<T>(f: impl FnOnce() -> T) -> Result<T, String> {
+    PANIC_AT.with(|p| p.borrow_mut().clear());
+    std::panic::catch_unwind(std::panic::AssertUnwindSafe(f)).map_err(|e| {
+        let msg = if let Some(s) = e.downcast_ref::<String>() { s.clone() } else if let Some(s) = e.downcast_ref::<&str>() { s.to_string() } else { "panic".to_string() };
+        format!("{} at {}", msg, PANIC_AT.with(|p| p.borrow().clone()))
+    })
+}
+
+// ---------------------------------------------------------------------------------------------------------------------
+// sinks that fail
+
+#[derive(Clone, Copy, PartialEq, Debug)]
+pub enum Kind { Hard, Zero }
+#[derive(Clone, Copy, PartialEq, Debug)]
+pub enum Gran { Split, Whole }
+#[derive(Clone, Copy, PartialEq, Debug)]
+pub enum Persist { Forever, Once, WhileTooBig }
+
+#[derive(Clone, Copy, PartialEq, Debug)]
+pub struct Failing { pub limit: usize, pub kind: Kind, pub gran: Gran, pub persist: Persist }
+
+impl Failing {
+    fn all(limit: usize) -> Vec<Failing> {
+        let mut v = vec![];
+        for kind in [Kind::Hard, Kind::Zero] {
+            for (gran, persist) in [(Gran::Split, Persist::Forever), (Gran::Split, Persist::Once), (Gran::Whole, Persist::Forever), (Gran::Whole, Persist::Once), (Gran::Whole, Persist::WhileTooBig)] {
+                v.push(Failing { limit, kind, gran, persist });
+            }
+        }
+        v
+    }
+    fn tag(&self) -> String {
+        format!("{}/{}/{}", match self.kind { Kind::Hard => "fail", Kind::Zero => "zero" }, match self.gran { Gran::Split => "split", Gran::Whole => "whole" },
+                match self.persist { Persist::Forever => "forever", Persist::Once => "once", Persist::WhileTooBig => "while-too-big" })
+    }
+    fn words(&self) -> String {
+        format!("sink with limit {}: {}, answers {}, {}", self.limit,
+                match self.gran { Gran::Split => "takes the part of the crossing write that fits", Gran::Whole => "rejects a write that does not fit as a whole" },
+                match self.kind { Kind::Hard => "with a hard error", Kind::Zero => "Ok(0)" },
+                match self.persist { Persist::Forever => "keeps failing afterwards", Persist::Once => "fails one call only and accepts every later call", Persist::WhileTooBig => "still accepts later writes that fit (fixed capacity)" })
     }
 }
 
-pub fn check(spec: &DocSpec, incremental: bool, thorough: bool, rep: &mut Report) -> Option<(String, String, Value)> {
-    let input = |mode: &str, n: usize| json!({"spec": spec_json(spec), "incremental": incremental, "mode": mode, "n": n});
-    let (r, reference, _) = run(spec, incremental, Mode::Healthy);
-    match r { Ok(Ok(())) => {}, other => return Some(("healthy-save".into(), format!("{:?}", other.map(|x| x.map_err(|e| e.to_string()))), input("healthy", 0))) }
+pub struct FailingSink {
+    pub f: Failing,
+    pub delivered: Vec<u8>,
+    /// calls answered with the failure
+    pub failures: usize,
+}
+
+impl FailingSink {
+    fn new(f: Failing) -> FailingSink { FailingSink { f, delivered: vec![], failures: 0 } }
+    fn fail(&mut self) -> std::io::Result<usize> {
+        self.failures += 1;
+        match self.f.kind { Kind::Hard => Err(std::io::Error::new(std::io::ErrorKind::Other, "sink failed")), Kind::Zero => Ok(0) }
+    }
+    fn take(&mut self, b: &[u8]) -> std::io::Result<usize> { self.delivered.extend_from_slice(b); Ok(b.len()) }
+}
+
+impl Write for FailingSink {
+    fn write(&mut self, buf: &[u8]) -> std::io::Result<usize> {
+        if buf.is_empty() { return Ok(0); }
+        if self.failures > 0 {
+            match self.f.persist {
+                Persist::Forever => return self.fail(),
+                Persist::Once => return self.take(buf),
+                Persist::WhileTooBig => {}
+            }
+        }
+        let room = self.f.limit.saturating_sub(self.delivered.len());
+        match self.f.gran {
+            Gran::Split => if room == 0 { self.fail() } else { self.take(&buf[..buf.len().min(room)]) },
+            Gran::Whole => if buf.len() > room { self.fail() } else { self.take(buf) },
+        }
+    }
+    fn flush(&mut self) -> std::io::Result<()> { Ok(()) }
+}
+
+// ---------------------------------------------------------------------------------------------------------------------
+// the check
+
+type Saved = Result<Result<(), std::io::Error>, String>;
+
+struct Ctx<'a> {
+    case: &'a Case,
+    /// incremental save: bytes and loaded form of the previous revision
+    base: Option<(Vec<u8>, Document)>,
+}
+
+impl<'a> Ctx<'a> {
+    fn new(case: &'a Case, incremental: bool) -> Ctx<'a> {
+        let base = if incremental {
+            let base_spec = DocSpec { objects: vec![((1, 0), name(b"Base")), ((2, 0), lit(b"old"))], xref_stream: case.spec.xref_stream, version: "1.5".into(), extra_trailer: false, max_id_slack: 0 };
+            let mut bytes = vec![];
+            build(&base_spec).save_to(&mut bytes).unwrap();
+            let prev = Document::load_mem(&bytes).unwrap();
+            Some((bytes, prev))
+        } else { None };
+        Ctx { case, base }
+    }
+    fn save<W: Write>(&self, sink: &mut W) -> (Saved, Option<Document>) {
+        match &self.base {
+            Some((bytes, prev)) => {
+                let mut inc = IncrementalDocument::create_from(bytes.clone(), prev.clone());
+                for (id, o) in &self.case.spec.objects {
+                    inc.new_document.objects.insert((id.0 + 10, id.1), o.clone());
+                    inc.new_document.max_id = inc.new_document.max_id.max(id.0 + 10);
+                }
+                for (k, v) in &self.case.trailer { inc.new_document.trailer.set(k.clone(), v.clone()); }
+                (caught(|| inc.save_to(sink)), None)
+            }
+            None => {
+                let mut d = build_case(self.case);
+                let r = caught(|| d.save_to(sink));
+                (r, Some(d))
+            }
+        }
+    }
+    fn run(&self, mode: Mode) -> (Saved, Sink) {
+        let mut sink = Sink::new(mode);
+        let (r, _) = self.save(&mut sink);
+        (r, sink)
+    }
+}
+
+fn show(r: Saved) -> String { format!("{:?}", r.map(|x| x.map_err(|e| e.to_string()))) }
+
+pub fn check(case: &Case, incremental: bool, thorough: bool, rep: &mut Report) -> Option<(String, String, Value)> {
+    let input = |mode: &str, n: usize| json!({"spec": case_json(case), "trailer": case.trailer.iter().map(|(k, v)| json!([hex(k), obj_json(v)])).collect::<Vec<_>>(),
+                                               "incremental": incremental, "mode": mode, "n": n});
+    let ctx = Ctx::new(case, incremental);
+    let (r, reference) = ctx.run(Mode::Healthy);
+    match r { Ok(Ok(())) => {}, other => return Some(("healthy-save".into(), show(other), input("healthy", 0))) }
     let full = reference.delivered;
     // 1. chunkings
     let ks: Vec<usize> = if thorough { (1..=9).chain([13, 64, 4096]).collect() } else { vec![1, 3, 19] };
     for k in ks {
-        let (r, s, _) = run(spec, incremental, Mode::Chunk(k));
+        let (r, s) = ctx.run(Mode::Chunk(k));
         rep.case(true);
         match r {
             Ok(Ok(())) => { if s.delivered != full { return Some(("chunking-independent".into(), format!("output differs from the unchunked output when the sink accepts {} bytes per call (first difference at {})", k, first_diff(&s.delivered, &full)), input("chunk", k))); } }
-            other => return Some(("chunking-independent".into(), format!("save failed under chunking {}: {:?}", k, other.map(|x| x.map_err(|e| e.to_string()))), input("chunk", k))),
+            other => return Some(("chunking-independent".into(), format!("save failed under chunking {}: {}", k, show(other)), input("chunk", k))),
         }
     }
-    // 2. every failure offset, hard error and zero-length write
+    // 2. every failure offset x kind x granularity x persistence
     let step = if thorough || full.len() < 400 { 1 } else { 7 };
     let mut n = 0;
     while n < full.len() {
-        for (mname, mode) in [("fail", Mode::FailAt(n)), ("zero", Mode::ZeroAt(n))] {
-            let (r, s, d) = run(spec, incremental, mode);
-            rep.case(true);
+        for f in Failing::all(n) {
+            let mut s = FailingSink::new(f);
+            let (r, d) = ctx.save(&mut s);
+            // n < full.len(), so a writer that sends the complete output must meet the failure
+            rep.case(s.failures > 0);
             match r {
-                Err(p) => return Some(("failure-no-panic".into(), format!("panic: {}", p), input(mname, n))),
-                Ok(Ok(())) => return Some(("failure-reported".into(), format!("save returned Ok although the sink failed after {} of {} bytes", n, full.len()), input(mname, n))),
+                Err(p) => return Some(("failure-no-panic".into(), format!("save panicked instead of returning an error ({}; {} of {} bytes delivered): {}", f.words(), s.delivered.len(), full.len(), p), input(&f.tag(), n))),
+                Ok(Ok(())) => return Some(("failure-reported".into(), format!("save returned Ok although the sink failed {} call(s) ({}; {} of {} bytes delivered)", s.failures, f.words(), s.delivered.len(), full.len()), input(&f.tag(), n))),
                 Ok(Err(_)) => {}
             }
-            if !full.starts_with(&s.delivered) { return Some(("delivered-is-prefix".into(), format!("bytes delivered before the failure at {} are not a prefix of the complete output", n), input(mname, n))); }
+            if !full.starts_with(&s.delivered) {
+                let at = first_diff(&s.delivered, &full);
+                return Some(("delivered-is-prefix".into(), format!("the {} bytes delivered are not a prefix of the complete output ({} bytes): they differ from byte {} on, delivered {:?} where the complete output has {:?} ({}; {} call(s) failed; bytes sent after the reported failure were accepted)",
+                    s.delivered.len(), full.len(), at, excerpt(&s.delivered, at), excerpt(&full, at), f.words(), s.failures), input(&f.tag(), n)));
+            }
             if let Some(mut d) = d {
                 // a later save of the same document value to a healthy sink gives a file that loads to the same content
                 if n % 5 == 0 {
                     let mut again = vec![];
-                    if d.save_to(&mut again).is_err() { return Some(("save-again".into(), "second save failed".into(), input(mname, n))); }
-                    if let Err(e) = crate::c01::loads_to(&again, &build(spec)) { return Some(("save-again-loads".into(), e, input(mname, n))); }
+                    match caught(|| d.save_to(&mut again)) { Ok(Ok(())) => {}, other => return Some(("save-again".into(), format!("second save failed: {}", show(other)), input(&f.tag(), n))) }
+                    let loaded = match caught(|| Document::load_mem(&again)) { Ok(Ok(l)) => l, Ok(Err(e)) => return Some(("save-again-loads".into(), format!("load failed: {}", e), input(&f.tag(), n))), Err(p) => return Some(("save-again-loads".into(), format!("load panicked: {}", p), input(&f.tag(), n))) };
+                    if let Err(e) = crate::c01::compare(&build_case(case), &loaded) { return Some(("save-again-loads".into(), e, input(&f.tag(), n))); }
                 }
             }
         }
@@ -81,11 +299,11 @@ pub fn check(spec: &DocSpec, incremental: bool, thorough: bool, rep: &mut Report
     let cstep = if thorough || calls < 200 { 1 } else { 5 };
     let mut c = 0;
     while c < calls {
-        let (r, s, _) = run(spec, incremental, Mode::InterruptAt(c, 1 << 20));
+        let (r, s) = ctx.run(Mode::InterruptAt(c, 1 << 20));
         rep.case(true);
         match r {
             Ok(Ok(())) => { if s.delivered != full { return Some(("interrupted-transparent".into(), format!("output differs after an Interrupted result at call {}", c), input("interrupt", c))); } }
-            other => return Some(("interrupted-transparent".into(), format!("Interrupted at sink call {} was not retried: {:?}", c, other.map(|x| x.map_err(|e| e.to_string()))), input("interrupt", c))),
+            other => return Some(("interrupted-transparent".into(), format!("Interrupted at sink call {} was not retried: {}", c, show(other)), input("interrupt", c))),
         }
         c += cstep;
     }
@@ -94,24 +312,52 @@ pub fn check(spec: &DocSpec, incremental: bool, thorough: bool, rep: &mut Report
 
 fn first_diff(a: &[u8], b: &[u8]) -> usize { a.iter().zip(b.iter()).position(|(x, y)| x != y).unwrap_or(a.len().min(b.len())) }
 
+fn excerpt(b: &[u8], at: usize) -> String { String::from_utf8_lossy(&b[at.min(b.len())..(at + 16).min(b.len())]).into_owned() }
+
 pub fn sinks(thorough: bool) -> Report {
-    let mut rep = Report::new("documents: every 9th (quick) / every 2nd (thorough) of gen::docs x plain+incremental; every failure offset (stride 7 beyond 400 bytes in quick) x {hard error, zero-length write}; chunk sizes {1,3,19} (quick) / 1..9,13,64,4096; Interrupted at every sink call", false);
+    let mut rep = Report::new("documents: (a) every 3rd of gen::docs plus every document of gen::docs that holds a stream object (quick) / all of gen::docs (thorough); (b) dictionary keys over the name alphabet: key in {Name, empty name, 'A#B C/(d)%\\0\\xff\\r\\n' (the names of gen::leaves), Latin-1 'Caf\\xe9', UTF-8 'ete' with acute accents, lone \\x80, truncated 'K\\xc3'} x dictionary position {object dictionary, nested in a dictionary, inside an array, stream dictionary, trailer} x value kind {integer, literal string, the same name, array, dictionary with the same key, reference} (quick: one value kind per key and position, Latin square, 35 documents; thorough: all 210); all x both xref formats x plain+incremental. Failing sinks: every limit n in 0..len (stride 7 beyond 400 bytes in quick) x {hard error, zero-length write} x {the write crossing n is split at n and the next call fails, a write that does not fit below n is rejected whole} x {sink fails for good, sink fails one call and accepts every later call, (whole only) fixed-capacity sink that rejects exactly the calls that do not fit}; chunk sizes {1,3,19} (quick) / 1..9,13,64,4096; Interrupted at every sink call", false);
     let specs = docs(false);
-    let stride = if thorough { 2 } else { 9 };
+    let stride = if thorough { 1 } else { 3 };
+    let mut work: Vec<(Case, bool)> = vec![];
     for (k, s) in specs.iter().enumerate() {
-        if k % stride != 0 { continue; }
-        for inc in [false, true] {
-            if let Some((ob, d, input)) = check(s, inc, thorough, &mut rep) {
-                rep.fail(&ob, d.clone(), input, d);
+        if k % stride != 0 && !holds_stream(s) { continue; }
+        for inc in [false, true] { work.push((Case { spec: s.clone(), trailer: vec![] }, inc)); }
+    }
+    for c in key_docs(thorough) {
+        for inc in [false, true] { work.push((c.clone(), inc)); }
+    }
+    // every work item is independent; results are folded in the order of the enumeration
+    let threads = std::thread::available_parallelism().map(|n| n.get()).unwrap_or(4).min(16).min(work.len().max(1));
+    let next = AtomicUsize::new(0);
+    let results: Mutex<Vec<Option<(u64, u64, Option<(String, String, Value)>)>>> = Mutex::new(vec![None; work.len()]);
+    with_hook(|| {
+        std::thread::scope(|sc| {
+            for _ in 0..threads {
+                sc.spawn(|| loop {
+                    let i = next.fetch_add(1, Ordering::SeqCst);
+                    if i >= work.len() { break; }
+                    let mut local = Report::new("", false);
+                    let f = check(&work[i].0, work[i].1, thorough, &mut local);
+                    results.lock().unwrap()[i] = Some((local.evaluations, local.nontrivial, f));
+                });
             }
-        }
-        if rep.evaluations % 50 < 3 { rep.sample(describe(s)); }
+        });
+    });
+    for (i, r) in results.into_inner().unwrap().into_iter().enumerate() {
+        let (ev, nt, f) = r.expect("every work item was evaluated");
+        rep.evaluations += ev;
+        rep.nontrivial += nt;
+        if let Some((ob, d, input)) = f { rep.fail(&ob, d.clone(), input, d); }
+        if i % 97 == 0 { rep.sample(format!("{}{}", describe(&work[i].0.spec), if work[i].0.trailer.is_empty() { String::new() } else { format!(" trailer+={:?}", work[i].0.trailer) })); }
     }
     rep
 }
 
 pub fn replay(v: &Value) -> Result<(), String> {
-    let s = spec_from_json(&v["spec"]);
+    let spec = spec_from_json(&v["spec"]);
+    let mut trailer = vec![];
+    for e in v["trailer"].as_array().cloned().unwrap_or_default() { trailer.push((unhex(e[0].as_str().unwrap_or("")), obj_from_json(&e[1]))); }
+    let case = Case { spec, trailer };
     let mut rep = Report::new("", false);
-    match check(&s, v["incremental"].as_bool().unwrap_or(false), true, &mut rep) { None => Ok(()), Some((o, d, _)) => Err(format!("{}: {}", o, d)) }
+    match with_hook(|| check(&case, v["incremental"].as_bool().unwrap_or(false), true, &mut rep)) { None => Ok(()), Some((o, d, _)) => Err(format!("{}: {}", o, d)) }
 }
